@@ -21,7 +21,20 @@ def long_members():
                   {"op": "Add", "args": {"g": "G1", "m": "D2"}}, {"op": "DelRef", "args": {"g": "G1", "m": "R1"}},
                   {"op": "Info", "args": {"g": "G1"}}, {"op": "Detach", "args": {"g": "G1"}}, {"op": "Lone", "args": {"a": 0}}]
         B.append({"spec": "VGroup", "steps": steps})
-    return {"member lists crossing 64/128/256 entries": B}
+    # a vgroup whose ONLY membership sits at position 64 or later of its parent (behind 64+ members that are not vgroups)
+    C = []
+    for n in (63, 64, 65, 70, 130):
+        steps = [{"op": "Setup", "args": {"nd": 2}}, {"op": "New", "args": {"g": "G1"}}, {"op": "New", "args": {"g": "G2"}},
+                 {"op": "New", "args": {"g": "G3"}}]
+        for i in range(n):
+            steps.append({"op": "Add", "args": {"g": "G1", "m": ["R1", "D1", "R2", "D2", "R3"][i % 5]}})
+        steps += [{"op": "Add", "args": {"g": "G1", "m": "G2"}}, {"op": "Insert", "args": {"g": "G1", "m": "G3"}},
+                  {"op": "Info", "args": {"g": "G1"}},
+                  {"op": "Detach", "args": {"g": "G1"}}, {"op": "Detach", "args": {"g": "G2"}}, {"op": "Detach", "args": {"g": "G3"}},
+                  {"op": "Lone", "args": {"a": 0}}, {"op": "Reopen", "args": {"a": 0}}, {"op": "Lone", "args": {"a": 0}},
+                  {"op": "Iterate", "args": {"a": 0}}]
+        C.append({"spec": "VGroup", "steps": steps})
+    return {"member lists crossing 64/128/256 entries": B, "child vgroups at member positions 63..131 (lone sets)": C}
 
 
 def check(tier, replay):
